@@ -105,6 +105,10 @@ class Scenario:
                 elif e[0] == "symlink":
                     t = e[2] if e[2].startswith("/") else os.path.join(self.base, e[2])
                     os.symlink(t, p)
+                elif e[0] == "symlink_raw":          # link text used as is (relative to the link's directory)
+                    os.symlink(e[2], p)
+                elif e[0] == "hardlink":             # another name of an existing member (cp -al style)
+                    os.link(os.path.join(self.base, e[2]), p)
 
     def make_report(self, fclones):
         self.build()
@@ -454,7 +458,9 @@ def tree_tokens(inv, locked_inos=()):
                 ents.append("I%d:%d:%s" % (inomap[e[1]], e[2], e[3].hex().upper() or "-"))
             ents.append("F%d@%s" % (inomap[e[1]], pct(p)))
         elif e[0] == "L":
-            ents.append("L%s@%s" % (pct(e[1]), pct(p)))
+            # the model keeps absolute link targets: a relative one is resolved against the link's directory
+            t = e[1] if e[1].startswith("/") else os.path.normpath(os.path.join(os.path.dirname(p), e[1]))
+            ents.append("L%s@%s" % (pct(t), pct(p)))
     for i in locked_inos:
         if i in inomap:
             ents.append("K%d" % inomap[i])
@@ -544,7 +550,7 @@ def compare_state(inv_real, queries, model_state, victims, known_mtimes):
         if r[0] != m[0]:
             diffs.append("%s: implementation %s, model %s" % (q, r[0], m[0]))
             continue
-        if r[0] == "L" and r[1] != m[1]:
+        if r[0] == "L" and os.path.normpath(os.path.join(os.path.dirname(q), r[1])) != m[1]:
             diffs.append("%s: link target %s vs %s" % (q, r[1], m[1]))
         if r[0] == "F":
             if r[3] != m[3]:
